@@ -570,6 +570,28 @@ func (cg *coreGen) TopStmt() Stmt {
 
 func (cg *coreGen) markStmt() Stmt {
 	cg.marks++
+	g := cg.g
+	if g.Chance(1, 3) {
+		// attribute (method) uses: each name is a slot in the code's name table
+		switch g.Intn(7) {
+		case 0:
+			return Stmt{Src: fmt.Sprintf("mark(%d, len(%s.copy()))", cg.marks, cg.listExpr(1))}
+		case 1:
+			return Stmt{Src: fmt.Sprintf("mark(%d, len(%s.keys()))", cg.marks, cg.mapExpr(1))}
+		case 2:
+			if ls := cg.varsOf(tList, true); len(ls) > 0 {
+				return Stmt{Src: fmt.Sprintf("%s.reverse()\nmark(%d, len(%s))", ls[g.Intn(len(ls))].Name, cg.marks, ls[0].Name)}
+			}
+		case 3:
+			return Stmt{Src: fmt.Sprintf("mark(%d, len(%s.to_upper()))", cg.marks, cg.strExpr(1))}
+		case 4:
+			return Stmt{Src: fmt.Sprintf("mark(%d, len(%s.filter(func(x) { return x > 2 })))", cg.marks, cg.listExpr(1))}
+		case 5:
+			return Stmt{Src: fmt.Sprintf("mark(%d, len(%s.values()))", cg.marks, cg.mapExpr(1))}
+		default:
+			return Stmt{Src: fmt.Sprintf("mark(%d, %s.count(%d))", cg.marks, cg.listExpr(1), g.Intn(9))}
+		}
+	}
 	return Stmt{Src: fmt.Sprintf("mark(%d, %s)", cg.marks, cg.intExpr(2))}
 }
 
